@@ -87,6 +87,10 @@ impl Registry {
         if let Some(base_unit) = self.base_units.get(name) {
             return Some(base_unit.to_string());
         }
+        // Quantities have definitions too, but their names are not units.
+        if !self.units.contains_key(name) {
+            return None;
+        }
         if let Some(expr) = self.definitions.get(name) {
             if let Expr::Unit { ref name } = *expr {
                 if let Some(canonicalized) = self.canonicalize(&*name) {
